@@ -499,7 +499,91 @@ def r6(repo, res):
            found=f"support read back: {v}", clause="indel support table takes precedence over parsed insertions only", key="zero-indel-entry")
 
 
+def spec_evidence(rec):
+    """Independent reading of the statement for one record: ({variant key: support}, {position: reference support})."""
+    g = RefGene()
+    p0 = rec.pos - 1
+    called = sorted(a for a in rec.samples["S"]["GT"] if a is not None)
+    muts, norm = {}, {}
+    if len(called) != 2 or g[p0] == "N":
+        return muts, norm
+
+    def allele_op(i):
+        if i == 0:
+            if len(rec.ref) == 1 and rec.ref != g[p0]:
+                return (p0, f"{g[p0]}>{rec.ref}")
+            return None
+        ref, alt = rec.ref, rec.alleles[i]
+        off = 0
+        while off < len(ref) and off < len(alt) and ref[off] == alt[off]:
+            off += 1
+        if len(ref) - off == 1 and len(alt) - off == 1:
+            return None if alt[off] == g[p0 + off] else (p0 + off, f"{g[p0 + off]}>{alt[off]}")
+        if len(ref) > len(alt) and len(alt) == off:
+            return (p0 + off, "del" + g[p0 + off:p0 + len(ref)])
+        if len(ref) < len(alt) and len(ref) == off:
+            return (p0 + off, "ins" + alt[off:])
+        return "ignore"
+
+    for a in called:
+        op = allele_op(a)
+        if op is None or op == "ignore":
+            continue
+        muts[op] = muts.get(op, 0) + 10
+        norm[op[0]] = norm.get(op[0], 20) - 10
+    return muts, norm
+
+
+def r7_exhaustive(repo, res):
+    """Thorough tier: generated records (every genotype over two alternates, matching and mismatching REF, substitutions,
+    deletions, insertions) folded through the lifted record loop and compared with the independent reading."""
+    from sa.report import thorough
+
+    if not thorough():
+        return
+    import itertools
+
+    f = repo.func("sam::Sample._load_vcf")
+    gts = [g_ for g_ in itertools.product((0, 1, 2, None), repeat=2)] + [(0, 1, 1), (1,), ()]
+    shapes = []
+    for p0 in (102, 105, 107):
+        b = REF_SEQ[p0 - 100]
+        others = [x for x in "ACGT" if x != b]
+        shapes.append((p0, b, [others[0], others[1]]))            # two substitutions
+        shapes.append((p0, others[2], [others[0], b]))             # REF differs from the gene reference; second ALT is the gene base
+        shapes.append((p0, REF_SEQ[p0 - 100:p0 - 97], [b, b + "GG"]))  # deletion of two bases; unrelated complex allele
+        shapes.append((p0, b, [b + "TT", others[0]]))              # insertion and substitution
+    n = 0
+    bad = None
+    for (p0, ref, alts), gt in itertools.product(shapes, gts):
+        if any(a is not None and a > len(alts) for a in gt):
+            continue
+        rec = vcf_record(p0, ref, alts, gt)
+        try:
+            norm, muts = fold_records(f, [rec])
+        except Unfoldable as e:
+            res.err("C16.R7", f"record loop outside folding language: {e}")
+            return
+        except Raised as e:
+            bad = bad or f"record {p0 + 1} {ref}>{alts} GT={gt}: raises {e.kind}"
+            continue
+        wm, wn = spec_evidence(rec)
+        wnorm = {p: 20 for p in range(100, 112)}
+        wnorm.update(wn)
+        n += 1
+        if muts != wm or norm != wnorm:
+            bad = bad or (f"record POS={p0 + 1} REF={ref} ALT={alts} GT={gt}: variant support {muts}, reference support "
+                          f"{ {p: c for p, c in norm.items() if c != 20} }; expected {wm} / {wn}")
+    res.count("C16.R7:records enumerated", n)
+    res.ob("C16.R7", f, f, bad is None,
+           expected="evidence of every generated record equals the independent reading of the statement",
+           found=f"{n} records agree" if bad is None else bad,
+           clause="support proportional to the number of alternate copies ... reduces the reference support at that site accordingly",
+           key="exhaustive-records")
+
+
 def run(repo, res):
+    r7_exhaustive(repo, res)
     r6(repo, res)
     r1(repo, res)
     r2(repo, res)
